@@ -28,6 +28,10 @@ pub enum RMac {
     BadSha,
     MiOtherPass,
     ShaOtherPass,
+    /// MESSAGE-INTEGRITY wrong in two bytes four apart with the same mask (a folding comparison cancels them)
+    FoldMi,
+    /// MESSAGE-INTEGRITY-SHA256 with every byte inverted
+    FoldSha,
 }
 
 #[derive(Clone, Copy, Debug, PartialEq, Eq, Hash, serde::Serialize, serde::Deserialize)]
@@ -50,6 +54,9 @@ pub enum NonceKind {
     Plain(u8),
     /// (password-algorithms bit, anonymity bit, generation)
     Cookie(bool, bool, u8),
+    /// the same, with unassigned feature bits set as well (a client ignores what it does not know: the assigned bits
+    /// keep their meaning)
+    CookieX(bool, bool, u8),
 }
 
 #[derive(Clone, Copy, Debug, PartialEq, Eq, Hash, serde::Serialize, serde::Deserialize)]
@@ -126,6 +133,10 @@ pub fn nonce_string(n: NonceKind) -> Option<String> {
         NonceKind::Cookie(pa, anon, g) => {
             let b = (if pa { 0x80 } else { 0 }) | (if anon { 0x40 } else { 0 });
             Some(cookie_nonce([b, 0, 0], &format!("n{}", g)))
+        }
+        NonceKind::CookieX(pa, anon, g) => {
+            let b = (if pa { 0x80 } else { 0 }) | (if anon { 0x40 } else { 0 }) | 0x15;
+            Some(cookie_nonce([b, 0x20, 0x01], &format!("x{}", g)))
         }
     }
 }
@@ -228,6 +239,14 @@ pub fn build_reply(w: &World, tid: [u8; 12], req: Option<&[u8]>, r: &Reply) -> V
             attrs.push(L::Sha);
             macs.push(Mac::Bad);
         }
+        RMac::FoldMi => {
+            attrs.push(L::Mi);
+            macs.push(Mac::Fold);
+        }
+        RMac::FoldSha => {
+            attrs.push(L::Sha);
+            macs.push(Mac::Fold);
+        }
     }
     match r.fp {
         RFp::Absent | RFp::MisplacedWrongLen => {}
@@ -294,7 +313,7 @@ pub fn challenge_of(c: &Chal) -> Option<Challenge> {
     }
     let nonce = nonce_string(c.nonce)?;
     let (pa_bit, anon_bit) = match c.nonce {
-        NonceKind::Cookie(p, a, _) => (p, a),
+        NonceKind::Cookie(p, a, _) | NonceKind::CookieX(p, a, _) => (p, a),
         _ => (false, false),
     };
     Some(Challenge { realm: realm_name(c.realm_v).into(), nonce, offered: pas_list(c.pas), pa_bit, anon_bit })
